@@ -25,12 +25,25 @@ CONSTANTS TraceFile, ResultFile
 
 Trace == ndJsonDeserialize(TraceFile)
 
-VARIABLES l, phase, skipping, failed, ntraces
+VARIABLES l, phase, skipping, failed, ntraces, pre
 
-tvars == <<l, phase, skipping, failed, ntraces>>
+tvars == <<l, phase, skipping, failed, ntraces, pre>>
 allvars == <<vars, tvars>>
 
 E == Trace[l]
+
+\* the specification's state before the record's action (to take back a step the
+\* implementation refused without any effect)
+Snap == [disks |-> disks, headN |-> headN, chain |-> chain, loc |-> loc, snapIdx |-> snapIdx,
+         holeQ |-> holeQ, size |-> size, open |-> open, mode |-> mode, rebuilding |-> rebuilding,
+         dirty |-> dirty, rev |-> rev, checkpoint |-> checkpoint, punch |-> punch, preload |-> preload,
+         cleaner |-> cleaner, ref |-> ref, usnap |-> usnap]
+Restore(p) ==
+    /\ disks' = p.disks /\ headN' = p.headN /\ chain' = p.chain /\ loc' = p.loc
+    /\ snapIdx' = p.snapIdx /\ holeQ' = p.holeQ /\ size' = p.size /\ open' = p.open
+    /\ mode' = p.mode /\ rebuilding' = p.rebuilding /\ dirty' = p.dirty /\ rev' = p.rev
+    /\ checkpoint' = p.checkpoint /\ punch' = p.punch /\ preload' = p.preload
+    /\ cleaner' = p.cleaner /\ ref' = p.ref /\ usnap' = p.usnap
 
 InitVals(nb, pu) ==
     [disks |-> [n \in {"h0"} |-> [parent |-> "", user |-> FALSE, removed |-> FALSE,
@@ -50,6 +63,7 @@ Reset(nb, pu) ==
 TInit ==
     /\ Init0(Trace[1].a.nb, Trace[1].a.punch)
     /\ l = 1 /\ phase = "cmp" /\ skipping = FALSE /\ failed = <<>> /\ ntraces = 1
+    /\ pre = Snap
 
 \* ---- apply -----------------------------------------------------------------
 SpecStep(e) ==
@@ -94,22 +108,23 @@ Apply ==
     /\ IF E.ev = "Init" THEN
             /\ Reset(E.a.nb, E.a.punch)
             /\ phase' = "cmp" /\ skipping' = FALSE /\ ntraces' = ntraces + 1
-            /\ UNCHANGED <<l, failed>>
+            /\ UNCHANGED <<l, failed, pre>>
        ELSE IF skipping THEN
             /\ l' = l + 1
-            /\ UNCHANGED <<vars, phase, skipping, failed, ntraces>>
+            /\ UNCHANGED <<vars, phase, skipping, failed, ntraces, pre>>
        ELSE IF E.ev = "Hang" THEN   \* the engine did not return from a call
             /\ Fail({"Hang"})
             /\ skipping' = TRUE /\ l' = l + 1
-            /\ UNCHANGED <<vars, phase, ntraces>>
+            /\ UNCHANGED <<vars, phase, ntraces, pre>>
        ELSE IF ENABLED SpecStep(E) THEN
             /\ SpecStep(E)
+            /\ pre' = Snap
             /\ phase' = "cmp"
             /\ UNCHANGED <<l, skipping, failed, ntraces>>
        ELSE \* the specification has no step for this record at all
             /\ Fail({"SpecNotEnabled"})
             /\ skipping' = TRUE /\ l' = l + 1
-            /\ UNCHANGED <<vars, phase, ntraces>>
+            /\ UNCHANGED <<vars, phase, ntraces, pre>>
 
 \* ---- compare ---------------------------------------------------------------
 ObsData(f, b) == IF b + 1 <= Len(f.data) THEN f.data[b + 1] ELSE Hole
@@ -168,17 +183,28 @@ Rules(e, d2) ==
                 \/ \E b \in SizeBlocks : ImageAt(chain, d2, IdxOf(chain, u))[b] # usnap[u][b]
           THEN {"UserSnapImmutable"} ELSE {})
 
+\* A management call the specification would have accepted but the implementation
+\* refused: not a violation of any listed property as long as the refusal had no
+\* effect at all -- the specification takes its step back and the record is compared
+\* with the state before it (phase "cmp2", without the Result rule).
+Refusable == {"Snapshot", "PrepareRemove", "RemoveDisk", "Revert", "Resize", "SetRebuilding",
+              "SetCheckpoint", "SetRev", "Open", "Reload"}
+
 Compare ==
-    /\ phase = "cmp" /\ l <= Len(Trace)
-    /\ LET d2 == Adopted(E.st.dir.files)
-           rs == Rules(E, d2)
-       IN /\ disks' = d2
-          /\ holeQ' = {}
-          /\ IF rs = {} THEN UNCHANGED <<failed, skipping>>
-             ELSE Fail(rs) /\ skipping' = TRUE
-    /\ l' = l + 1 /\ phase' = "apply"
-    /\ UNCHANGED <<headN, chain, loc, snapIdx, size, open, mode, rebuilding, dirty, rev,
-                   checkpoint, punch, preload, cleaner, res, out, op, ref, usnap, ntraces>>
+    /\ phase \in {"cmp", "cmp2"} /\ l <= Len(Trace)
+    /\ IF phase = "cmp" /\ E.res = "refused" /\ res = "ok" /\ E.ev \in Refusable
+       THEN /\ Restore(pre)
+            /\ phase' = "cmp2"
+            /\ UNCHANGED <<l, failed, skipping, ntraces, pre, res, out, op>>
+       ELSE /\ LET d2 == Adopted(E.st.dir.files)
+                   rs == Rules(E, d2) \ (IF phase = "cmp2" THEN {"Result"} ELSE {})
+               IN /\ disks' = d2
+                  /\ holeQ' = {}
+                  /\ IF rs = {} THEN UNCHANGED <<failed, skipping>>
+                     ELSE Fail(rs) /\ skipping' = TRUE
+            /\ l' = l + 1 /\ phase' = "apply"
+            /\ UNCHANGED <<headN, chain, loc, snapIdx, size, open, mode, rebuilding, dirty, rev,
+                           checkpoint, punch, preload, cleaner, res, out, op, ref, usnap, ntraces, pre>>
 
 TNext == Apply \/ Compare
 TSpec == TInit /\ [][TNext]_allvars
